@@ -121,6 +121,10 @@ structure DB where
   synced : Option Nat := none
   syncVersions : List (Nat × Int) := []
   avgTouched : Bool := false      -- ephemeral: ApplyTransactionBatchesInHolding was reached in this block
+  /-- history variable (not a table, never read by the model): every call of
+      `SetTransactionHistoryExecuted` so far, in order, as (entry hash, status written). It lets
+      theorems speak about "a status was recorded for this entry while this block was applied". -/
+  statusLog : List (Hash × Int) := []
   deriving Repr
 
 abbrev LM := M DB
@@ -219,7 +223,9 @@ abbrev insertLookup (r : HistLookup) : LM Unit :=
 
 /-- `SetTransactionHistoryExecuted`: every batch row with this hash. -/
 abbrev setExecuted (hash : Hash) (v : Int) : LM Unit :=
-  M.guarded (fun _ => none) fun db => { db with histB := db.histB.map (fun r => if r.hash == hash then { r with executed := v } else r) }
+  M.guarded (fun _ => none) fun db =>
+    { db with histB := db.histB.map (fun r => if r.hash == hash then { r with executed := v } else r),
+              statusLog := db.statusLog ++ [(hash, v)] }
 
 abbrev setConvertedAmount (hash : Hash) (idx : Nat) (amt : Int) : LM Unit :=
   M.guarded (fun _ => none) fun db => { db with histT := db.histT.map (fun r =>
